@@ -20,10 +20,10 @@ pub fn get() -> FunctionDefinitions {
                 )
                 {
                     if let Ok(index) = TryInto::<usize>::try_into(index) {
-                        if str.len() < index {
+                        if str.chars().count() < index {
                             Some(str.into())
                         } else {
-                            let head = str[index..].to_string();
+                            let head: String = str.chars().skip(index).collect();
                             Some(head.into())
                         }
                     } else {
